@@ -225,12 +225,14 @@ def run(chk):
         dev, asum = hex_to_float(d['area_dev']), hex_to_float(d['area_sum'])
         if not (dev <= 1e-9):
             bad.append('polygon area differs from the area integral by %.3g' % dev)
-        if nf < n * 0.9:
+        if r.family.startswith('shell') and nf < n * 0.9:
             bad.append('only %d faces for %d shell generators (generator broken?)' % (nf, n))
+        if r.family.startswith('ring') and int(d.get('maxfv', 0)) < n * 0.9:
+            bad.append('largest face has only %s vertices for a ring of %d generators (generator broken?)' % (d.get('maxfv'), n))
         if bad:
             chk.violation('impl-vs-oracle', 'cell with %d faces / %d vertices: %s' % (nf, nv, '; '.join(bad)), rp, key='bigcell')
         else:
             chk.traces += 1
             chk.nontriv(('bigcell', r.id))
-            big.append({'faces': nf, 'vertices': nv, 'surface_area': asum})
+            big.append({'family': r.family, 'faces': nf, 'vertices': nv, 'largest_face': int(d.get('maxfv', 0)), 'surface_area': asum})
     chk.extra_cov['bigcell'] = big
